@@ -4,20 +4,23 @@ package c06
 import (
 	"sync"
 	"bytes"
+	"crypto/sha256"
 	"fmt"
 	"os"
 	"testing"
 
+	"github.com/ipfs/go-cid"
 	"github.com/ipld/go-ipld-prime"
-	"github.com/ipld/go-ipld-prime/codec/dagcbor"
 	"github.com/ipld/go-ipld-prime/codec/dagjson"
 	"github.com/libp2p/go-libp2p/core/crypto/pb"
 	"pgregory.net/rapid"
 
+	"github.com/ucan-wg/go-ucan/pkg/container"
 	"github.com/ucan-wg/go-ucan/token"
 	"github.com/ucan-wg/go-ucan/token/delegation"
 	"github.com/ucan-wg/go-ucan/token/invocation"
 
+	"verif/harness/api"
 	"verif/harness/env"
 	"verif/harness/h"
 	"verif/harness/keys"
@@ -328,46 +331,68 @@ func ni(t *invocation.Token, err error) (token.Token, error) {
 	return t, nil
 }
 
-var cborDecoders = []decoder{
-	{"token.FromSealed", "sealed", "", func(b []byte) (token.Token, error) { t, _, err := token.FromSealed(b); return t, err }},
-	{"token.FromSealedReader", "sealed", "", func(b []byte) (token.Token, error) { t, _, err := token.FromSealedReader(bytes.NewReader(b)); return t, err }},
-	{"token.FromDagCbor", "dagcbor", "", func(b []byte) (token.Token, error) { return token.FromDagCbor(b) }},
-	{"token.FromDagCborReader", "dagcbor", "", func(b []byte) (token.Token, error) { return token.FromDagCborReader(bytes.NewReader(b)) }},
-	{"token.Decode", "dagcbor", "", func(b []byte) (token.Token, error) { return token.Decode(b, dagcbor.Decode) }},
-	{"delegation.FromSealed", "sealed", "dlg", func(b []byte) (token.Token, error) { t, _, err := delegation.FromSealed(b); return nd(t, err) }},
-	{"delegation.FromSealedReader", "sealed", "dlg", func(b []byte) (token.Token, error) {
-		t, _, err := delegation.FromSealedReader(bytes.NewReader(b))
-		return nd(t, err)
-	}},
-	{"delegation.FromDagCbor", "dagcbor", "dlg", func(b []byte) (token.Token, error) { return nd(delegation.FromDagCbor(b)) }},
-	{"delegation.FromIPLD", "dagcbor", "dlg", func(b []byte) (token.Token, error) {
-		n, err := ipld.Decode(b, dagcbor.Decode)
+// every public decode entry point (harness/api), plus the container readers around a single entry
+func fromAPI(format string) []decoder {
+	var out []decoder
+	for _, d := range api.Decoders(format) {
+		d := d
+		out = append(out, decoder{d.Name, d.Family, d.Typed, func(b []byte) (token.Token, error) { t, _, err := d.Bytes(b); return t, err }})
+	}
+	return out
+}
+
+func only(r container.Reader, err error) (token.Token, error) {
+	if err != nil {
+		return nil, err
+	}
+	for _, t := range r {
+		return t, nil
+	}
+	return nil, fmt.Errorf("empty container")
+}
+
+func inContainer(b []byte) container.Writer {
+	w := container.NewWriter()
+	h := sha256.Sum256(b)
+	mhb := append([]byte{0x12, 0x20}, h[:]...)
+	w.AddSealed(cid.NewCidV1(cid.DagCBOR, mhb), b)
+	return w
+}
+
+var containerDecoders = []decoder{
+	{"container.FromCbor", "container", "", func(b []byte) (token.Token, error) {
+		cb, err := inContainer(b).ToCbor()
 		if err != nil {
 			return nil, err
 		}
-		return nd(delegation.FromIPLD(n))
+		return only(container.FromCbor(cb))
 	}},
-	{"invocation.FromSealed", "sealed", "inv", func(b []byte) (token.Token, error) { t, _, err := invocation.FromSealed(b); return ni(t, err) }},
-	{"invocation.FromSealedReader", "sealed", "inv", func(b []byte) (token.Token, error) {
-		t, _, err := invocation.FromSealedReader(bytes.NewReader(b))
-		return ni(t, err)
-	}},
-	{"invocation.FromDagCbor", "dagcbor", "inv", func(b []byte) (token.Token, error) { return ni(invocation.FromDagCbor(b)) }},
-	{"invocation.FromIPLD", "dagcbor", "inv", func(b []byte) (token.Token, error) {
-		n, err := ipld.Decode(b, dagcbor.Decode)
+	{"container.FromCborBase64Reader", "container", "", func(b []byte) (token.Token, error) {
+		cb, err := inContainer(b).ToCborBase64()
 		if err != nil {
 			return nil, err
 		}
-		return ni(invocation.FromIPLD(n))
+		return only(container.FromCborBase64Reader(bytes.NewReader(cb)))
+	}},
+	{"container.FromCarReader", "container", "", func(b []byte) (token.Token, error) {
+		cb, err := inContainer(b).ToCar()
+		if err != nil {
+			return nil, err
+		}
+		return only(container.FromCarReader(bytes.NewReader(cb)))
+	}},
+	{"container.FromCarBase64", "container", "", func(b []byte) (token.Token, error) {
+		cb, err := inContainer(b).ToCarBase64()
+		if err != nil {
+			return nil, err
+		}
+		return only(container.FromCarBase64(cb))
 	}},
 }
 
-var jsonDecoders = []decoder{
-	{"token.FromDagJson", "dagjson", "", func(b []byte) (token.Token, error) { return token.FromDagJson(b) }},
-	{"token.FromDagJsonReader", "dagjson", "", func(b []byte) (token.Token, error) { return token.FromDagJsonReader(bytes.NewReader(b)) }},
-	{"delegation.FromDagJson", "dagjson", "dlg", func(b []byte) (token.Token, error) { return nd(delegation.FromDagJson(b)) }},
-	{"invocation.FromDagJson", "dagjson", "inv", func(b []byte) (token.Token, error) { return ni(invocation.FromDagJson(b)) }},
-}
+var cborDecoders = append(fromAPI("cbor"), containerDecoders...)
+
+var jsonDecoders = fromAPI("json")
 
 func run(c *h.Ctx, cs Case) {
 	tk, priv, err := tok.Build(cs.Tok)
